@@ -105,6 +105,11 @@ func runC04(rc *RunCtx) {
 	// buy delivers one MsgBuyStorage and judges it against the pre-state
 	buy := func(payer, forAcc int, bytes, days int64, ri int, denom string, upper bool) {
 		msg := &storagetypes.MsgBuyStorage{Creator: c.Accs[payer].Bech, ForAddress: c.Accs[forAcc].Bech, DurationDays: days, Bytes: bytes, PaymentDenom: denom, Referral: refs[ri]}
+		if rc.Chance(0.15) {
+			// the beneficiary's address written in upper case (the same account)
+			msg.ForAddress = strings.ToUpper(msg.ForAddress)
+			rc.Count("upper_case_beneficiaries", 1)
+		}
 		spell := "canonical"
 		if upper {
 			// the same account, spelled in upper case (valid bech32, same signer)
